@@ -63,6 +63,11 @@ NUMERIC = {
 }
 
 DATA = {
+    'Gen_effects': [
+        dict(name='prog_gen_params', kind='effect_skeleton', file='polyply/src/gen_itp.py', func='gen_params'),
+        dict(name='prog_gen_coords', kind='effect_skeleton', file='polyply/src/gen_coords.py', func='gen_coords'),
+        dict(name='prog_gen_seq', kind='effect_skeleton', file='polyply/src/gen_seq.py', func='gen_seq'),
+    ],
     'Gen_walk_skel': [
         dict(name='accept_conjuncts', kind='guard_conjuncts', file='polyply/src/random_walk.py',
              func='RandomWalk.update_positions', attr='add_positions'),
